@@ -125,11 +125,11 @@ def gen_case(rng, cfg, idx):
             src = rng.choice(arrs)
             v = new("a")
             how = "full"
-            if shapes[src][0] >= 2 and rng.random() < 0.5:
+            if len(shapes[src]) >= 1 and shapes[src][0] >= 2 and rng.random() < 0.5:
                 how = rng.choice(["lo", "hi"])
             st.append(["aview", v, src, how])
             arrs.append(v)
-            k0 = shapes[src][0]
+            k0 = shapes[src][0] if len(shapes[src]) else 1
             shapes[v] = shapes[src] if how == "full" else ((k0 // 2 if how == "lo" else k0 - k0 // 2),) + tuple(shapes[src][1:])
         elif r < 0.76 and len(arrs) > 1:
             # the user drops one of their arrays (often a view) and allocates a fresh one, possibly read-only, right away: CPython hands
@@ -154,7 +154,10 @@ def gen_case(rng, cfg, idx):
         elif r < 0.962 and live_t:
             # one user buffer, its two halves as separate views: one half is an operand, the other the out= target of the same operation,
             # and the halves / the buffer take part in further graphs that are dropped in any order
-            x = rng.choice(live_t)
+            nd = [t_ for t_ in live_t if len(shapes[t_]) >= 1]      # (a 0-d tensor has no halves)
+            if not nd:
+                continue
+            x = rng.choice(nd)
             s = shapes[x]
             buf = new("a")
             st.append(["arr", buf, [2 * s[0]] + list(s[1:]), False, "C"])
